@@ -1,14 +1,13 @@
 ------------------------ MODULE ContainerConcProofs ------------------------
 (* Machine-checked (TLAPS) proofs that mutual exclusion, "a shared service is constructed   *)
-(* at most once" and "a parameter is evaluated at most once" (C20) are invariants of        *)
-(* ContainerConc for EVERY set of                                                           *)
+(* at most once", "a parameter is evaluated at most once" and "a contextual instance is      *)
+(* never handed to another context" (C20) are invariants of ContainerConc for EVERY set of  *)
 (* goroutines, services, parameters, dependency relation and operation scripts - the        *)
-(* unbounded counterpart of what TLC checks on the instances of MC_ContainerConc            *)
-(* (theorems MutexAlways, ConstructedOnceAlways, EvaluatedOnceAlways at the end).  The first *)
-(* inductive                                                                                *)
-(* invariant says: a frame that is inside its critical section (phases check .. unlock of   *)
-(* an entry that needs a lock) belongs to the goroutine the lock table names, and no        *)
-(* goroutine has two such frames for one entry.                                             *)
+(* unbounded counterpart of what TLC checks on the instances of MC_ContainerConc (theorems  *)
+(* MutexAlways, ConstructedOnceAlways, EvaluatedOnceAlways, ContextIsolationAlways at the    *)
+(* end of the module).  The first inductive invariant says: a frame that is inside its     *)
+(* critical section (phases check .. unlock of an entry that needs a lock) belongs to the   *)
+(* goroutine the lock table names, and no goroutine has two such frames for one entry.      *)
 EXTENDS ContainerConc, SequenceTheorems, TLAPS
 
 Keys == Svc \cup Par
@@ -443,7 +442,7 @@ Shape(g, f2) ==
   /\ \A h \in G : \A i \in 1..Len(stack'[h]) :
         \/ (i \in 1..Len(stack[h]) /\ ~(h = g /\ i = Len(stack[g])) /\ stack'[h][i] = stack[h][i])
         \/ (h = g /\ i = Len(stack[g]) /\ stack'[h][i] = f2)
-        \/ (h = g /\ i = Len(stack[g]) + 1 /\ stack'[h][i].phase = "lock")
+        \/ (h = g /\ i = Len(stack[g]) + 1 /\ stack'[h][i].phase = "lock" /\ stack'[h][i].inst = 0)
 
 LEMMA SetTopShape == ASSUME TypeOK, NEW g \in G, Busy(g), NEW f2 \in FrameT, stack' = SetTop(g, f2)
                      PROVE  Shape(g, f2) /\ Len(stack[g]) \in 1..Len(stack'[g]) /\ stack'[g][Len(stack[g])] = f2
@@ -556,7 +555,7 @@ LEMMA BeginOnce == ASSUME Inv, OnceInv, NEW g \in G, Begin(g) PROVE OnceInv'
     BY DEF Begin
   <1>3. pcs[g] \in 1..Len(Ops[g])
     BY <1>1 DEF Begin, TypeOK
-  <1>4. fr \in FrameT /\ fr.phase = "lock"
+  <1>4. fr \in FrameT /\ fr.phase = "lock" /\ fr.inst = 0
     <2>1. o.id \in Keys /\ (k = "svc" => o.id \in Svc) /\ (k = "par" => o.id \in Par)
       BY <1>3, ConstAssump DEF CurOp
     <2> QED BY <2>1, FrameTyped DEF Frame
@@ -674,7 +673,7 @@ LEMMA DepOnce == ASSUME Inv, OnceInv, NEW g \in G, Dep(g) PROVE OnceInv'
         BY <2>2, <3>1, LenProperties
       <3>3. d \in {"svc", "par"} \X Keys /\ (d[1] = "svc" => d[2] \in Svc) /\ (d[1] = "par" => d[2] \in Par)
         BY <3>1, <3>2, ConstAssump, ElementOfSeq
-      <3>4. fr \in FrameT /\ fr.phase = "lock"
+      <3>4. fr \in FrameT /\ fr.phase = "lock" /\ fr.inst = 0
         BY <3>3, FrameTyped DEF Frame
       <3>5. f2 \in FrameT /\ f2.kind = f.kind /\ f2.id = f.id /\ f2.phase \in {"deps", "build"} /\ f2.inst = f.inst
         BY <1>1, <1>2 DEF FrameT
@@ -1188,7 +1187,7 @@ LEMMA BeginEval == ASSUME Inv, EvalInv, NEW g \in G, Begin(g) PROVE EvalInv'
     BY DEF Begin
   <1>3. pcs[g] \in 1..Len(Ops[g])
     BY <1>1 DEF Begin, TypeOK
-  <1>4. fr \in FrameT /\ fr.phase = "lock"
+  <1>4. fr \in FrameT /\ fr.phase = "lock" /\ fr.inst = 0
     <2>1. o.id \in Keys /\ (k = "svc" => o.id \in Svc) /\ (k = "par" => o.id \in Par)
       BY <1>3, ConstAssump DEF CurOp
     <2> QED BY <2>1, FrameTyped DEF Frame
@@ -1256,7 +1255,7 @@ LEMMA DepEval == ASSUME Inv, EvalInv, NEW g \in G, Dep(g) PROVE EvalInv'
         BY <2>2, <3>1, LenProperties
       <3>3. d \in {"svc", "par"} \X Keys /\ (d[1] = "svc" => d[2] \in Svc) /\ (d[1] = "par" => d[2] \in Par)
         BY <3>1, <3>2, ConstAssump, ElementOfSeq
-      <3>4. fr \in FrameT /\ fr.phase = "lock"
+      <3>4. fr \in FrameT /\ fr.phase = "lock" /\ fr.inst = 0
         BY <3>3, FrameTyped DEF Frame
       <3>5. f2 \in FrameT /\ f2.kind = f.kind /\ f2.id = f.id /\ f2.phase \in {"deps", "build"} /\ f2.inst = f.inst
         BY <1>1, <1>2 DEF FrameT
@@ -1528,6 +1527,505 @@ THEOREM EvalInductive == Inv /\ EvalInv /\ [CNext]_cvars => EvalInv'
     BY <1>2, BeginEval, LockEval, CheckEval, DepEval, ConstructEval, StoreEval, UnlockEval, ReturnEval
   <1> QED BY <1>1, <1>2 DEF CNext
 
+-----------------------------------------------------------------------------
+(* C20, last clause: an instance created for one bag (context) is never handed to an        *)
+(* operation of another.  Every instance has its owner fixed when it is constructed; what a  *)
+(* frame, a bag or the shared cache holds has the owner its place demands, and no place     *)
+(* holds an instance number that has not been handed out yet.                               *)
+ExpK(fr, key) == IF ScopeOf[fr.id] = "contextual" THEN key ELSE ""
+Exp(fr, g) == ExpK(fr, BagKey(g))
+InstBound ==
+  /\ DOMAIN owner \subseteq 1..(nextInst - 1)
+  /\ \A g \in G : \A i \in 1..Len(stack[g]) : stack[g][i].kind = "svc" => stack[g][i].inst < nextInst
+  /\ \A k \in DOMAIN bags : \A x \in DOMAIN bags[k] : bags[k][x] < nextInst
+  /\ \A x \in Svc : shared[x] < nextInst
+  /\ \A r \in returned : r.kind = "svc" => (r.inst \in Nat /\ r.inst < nextInst)
+OwnerInv ==
+  /\ \A g \in G : \A i \in 1..Len(stack[g]) :
+        (stack[g][i].kind = "svc" /\ stack[g][i].inst \in DOMAIN owner) => owner[stack[g][i].inst] = Exp(stack[g][i], g)
+  /\ \A k \in DOMAIN bags : \A x \in DOMAIN bags[k] : bags[k][x] \in DOMAIN owner => owner[bags[k][x]] = k
+  /\ \A x \in Svc : shared[x] \in DOMAIN owner => owner[shared[x]] = ""
+  /\ ContextIsolation
+CtxInv == InstBound /\ OwnerInv
+
+THEOREM CtxImplies == CtxInv => ContextIsolation
+  BY DEF CtxInv, OwnerInv
+
+LEMMA InitCtx == CInit => CtxInv
+  <1> SUFFICES ASSUME CInit PROVE CtxInv
+    OBVIOUS
+  <1>1. DOMAIN owner = {} /\ DOMAIN bags = {} /\ returned = {} /\ nextInst = 1 /\ \A x \in Svc : shared[x] = 0
+    BY DEF CInit
+  <1>2. \A g \in G : Len(stack[g]) = 0
+    BY DEF CInit
+  <1> QED BY <1>1, <1>2 DEF CtxInv, InstBound, OwnerInv, ContextIsolation
+
+(* the bag of an operation does not change while the operation index of its goroutine stays *)
+LEMMA BagKeyStable == ASSUME NEW h \in G, pcs'[h] = pcs[h] PROVE BagKey(h)' = BagKey(h)
+  BY DEF BagKey, CurOp
+
+(* a step that creates no instance, leaves the caches and the results alone and keeps or replaces the top frame by one with an *)
+(* admissible instance                                                                                                        *)
+LEMMA CtxStep ==
+  ASSUME TypeOK, CtxInv, NEW g \in G, NEW f2, Shape(g, f2),
+         owner' = owner, nextInst' = nextInst, bags' = bags, shared' = shared, returned' = returned, pcs' = pcs,
+         Len(stack[g]) \in 1..Len(stack'[g]) =>
+             (f2.kind = "svc" => (f2.inst < nextInst /\ (f2.inst \in DOMAIN owner => owner[f2.inst] = Exp(f2, g))))
+  PROVE  CtxInv'
+  <1>1. InstBound /\ OwnerInv /\ nextInst \in Nat \ {0}
+    BY DEF CtxInv, TypeOK
+  <1>2. \A h \in G : BagKey(h)' = BagKey(h)
+    BY BagKeyStable
+  <1>3. \A h \in G : \A i \in 1..Len(stack'[h]) : stack'[h][i].kind = "svc" =>
+            /\ stack'[h][i].inst < nextInst
+            /\ stack'[h][i].inst \in DOMAIN owner => owner[stack'[h][i].inst] = Exp(stack'[h][i], h)
+    <2> SUFFICES ASSUME NEW h \in G, NEW i \in 1..Len(stack'[h]), stack'[h][i].kind = "svc"
+                 PROVE  /\ stack'[h][i].inst < nextInst
+                        /\ stack'[h][i].inst \in DOMAIN owner => owner[stack'[h][i].inst] = Exp(stack'[h][i], h)
+      OBVIOUS
+    <2>1. CASE i \in 1..Len(stack[h]) /\ ~(h = g /\ i = Len(stack[g])) /\ stack'[h][i] = stack[h][i]
+      BY <2>1, <1>1 DEF InstBound, OwnerInv
+    <2>2. CASE h = g /\ i = Len(stack[g]) /\ stack'[h][i] = f2
+      BY <2>2
+    <2>3. CASE h = g /\ i = Len(stack[g]) + 1 /\ stack'[h][i].phase = "lock" /\ stack'[h][i].inst = 0
+      BY <2>3, <1>1 DEF InstBound
+    <2> QED BY <2>1, <2>2, <2>3 DEF Shape
+  <1>4. InstBound'
+    BY <1>1, <1>3 DEF InstBound
+  <1>5. OwnerInv'
+    <2>1. \A h \in G : \A i \in 1..Len(stack'[h]) :
+             (stack'[h][i].kind = "svc" /\ stack'[h][i].inst \in DOMAIN owner') => owner'[stack'[h][i].inst] = ExpK(stack'[h][i], BagKey(h)')
+      BY <1>3, <1>2 DEF Exp
+    <2>2. ContextIsolation'
+      BY <1>1 DEF OwnerInv, ContextIsolation
+    <2> QED BY <1>1, <2>1, <2>2 DEF OwnerInv, Exp
+  <1> QED BY <1>4, <1>5 DEF CtxInv
+
+LEMMA TopFacts == ASSUME TypeOK, CtxInv, NEW g \in G, Busy(g)
+                  PROVE  Top(g).kind = "svc" => (Top(g).inst < nextInst /\ (Top(g).inst \in DOMAIN owner => owner[Top(g).inst] = Exp(Top(g), g)))
+  <1>1. Len(stack[g]) \in 1..Len(stack[g]) /\ Top(g) = stack[g][Len(stack[g])]
+    BY BusyLen
+  <1> QED BY <1>1 DEF CtxInv, InstBound, OwnerInv
+
+LEMMA BeginCtx == ASSUME Inv, CtxInv, NEW g \in G, Begin(g) PROVE CtxInv'
+  <1>1. TypeOK
+    BY DEF Inv
+  <1> DEFINE o == CurOp(g)
+             k == IF o.op = "GetParam" THEN "par" ELSE "svc"
+             fr == Frame(k, o.id)
+  <1>2. stack' = Push(g, fr) /\ ~Busy(g) /\ UNCHANGED <<pcs, locks, shared, bags, pcache, nextInst, built, evals, owner, returned>>
+    BY DEF Begin
+  <1>3. pcs[g] \in 1..Len(Ops[g])
+    BY <1>1 DEF Begin, TypeOK
+  <1>4. fr \in FrameT /\ fr.phase = "lock" /\ fr.inst = 0
+    <2>1. o.id \in Keys /\ (k = "svc" => o.id \in Svc) /\ (k = "par" => o.id \in Par)
+      BY <1>3, ConstAssump DEF CurOp
+    <2> QED BY <2>1, FrameTyped DEF Frame
+  <1>5. stack[g] = <<>> /\ Len(stack[g]) = 0
+    BY <1>2 DEF Busy
+  <1>6. /\ \A h \in G : h # g => stack'[h] = stack[h]
+        /\ Len(stack'[g]) = Len(stack[g]) + 1
+        /\ stack'[g][Len(stack[g]) + 1] = fr
+    BY <1>1, <1>2, <1>4, PushProps
+  <1>7. Shape(g, fr) /\ Len(stack[g]) \notin 1..Len(stack'[g])
+    BY <1>5, <1>6, <1>4 DEF Shape
+  <1> QED BY <1>1, <1>2, <1>7, CtxStep
+
+LEMMA LockCtx == ASSUME Inv, CtxInv, NEW g \in G, Lock(g) PROVE CtxInv'
+  <1>1. TypeOK /\ Busy(g)
+    BY DEF Inv, Lock
+  <1> DEFINE f2 == [Top(g) EXCEPT !.phase = "check"]
+  <1>2. Top(g) \in FrameT
+    BY <1>1, BusyLen
+  <1>3. f2 \in FrameT /\ stack' = SetTop(g, f2) /\ f2.kind = Top(g).kind /\ f2.id = Top(g).id /\ f2.inst = Top(g).inst
+        /\ UNCHANGED <<pcs, shared, bags, nextInst, owner, returned>>
+    BY <1>2 DEF Lock, FrameT, Phases
+  <1>4. Shape(g, f2)
+    BY <1>1, <1>3, SetTopShape
+  <1>5. f2.kind = "svc" => (f2.inst < nextInst /\ (f2.inst \in DOMAIN owner => owner[f2.inst] = Exp(f2, g)))
+    BY <1>1, <1>3, TopFacts DEF Exp, ExpK
+  <1> QED BY <1>1, <1>3, <1>4, <1>5, CtxStep
+
+LEMMA CheckCtx == ASSUME Inv, CtxInv, NEW g \in G, Check(g) PROVE CtxInv'
+  <1>1. TypeOK /\ Busy(g)
+    BY DEF Inv, Check
+  <1> DEFINE f == Top(g)
+             f2 == IF Cached(g) # 0 THEN [f EXCEPT !.phase = "unlock", !.inst = Cached(g)] ELSE [f EXCEPT !.phase = "deps"]
+  <1>2. f \in FrameT /\ Cached(g) \in Nat
+    BY <1>1, BusyLen, CachedNat
+  <1>3. f2 \in FrameT /\ stack' = SetTop(g, f2) /\ f2.kind = f.kind /\ f2.id = f.id
+        /\ UNCHANGED <<pcs, shared, bags, nextInst, owner, returned>>
+    BY <1>2 DEF Check, FrameT, Phases
+  <1>4. Shape(g, f2)
+    BY <1>1, <1>3, SetTopShape
+  <1>5. f2.kind = "svc" => (f2.inst < nextInst /\ (f2.inst \in DOMAIN owner => owner[f2.inst] = Exp(f2, g)))
+    <2> SUFFICES ASSUME f2.kind = "svc" PROVE f2.inst < nextInst /\ (f2.inst \in DOMAIN owner => owner[f2.inst] = Exp(f2, g))
+      OBVIOUS
+    <2>1. f.kind = "svc" /\ f.id \in Svc
+      BY <1>2, <1>3 DEF FrameT
+    <2>2. CASE Cached(g) = 0
+      <3>1. f2.inst = f.inst
+        BY <2>2, <1>2 DEF FrameT
+      <3> QED BY <3>1, <2>1, <1>1, <1>3, TopFacts DEF Exp, ExpK
+    <2>3. CASE Cached(g) # 0 /\ ScopeOf[f.id] = "shared"
+      <3>1. f2.inst = shared[f.id]
+        BY <2>3, <2>1, <1>2 DEF Cached, FrameT
+      <3>2. shared[f.id] < nextInst /\ (shared[f.id] \in DOMAIN owner => owner[shared[f.id]] = "")
+        BY <2>1 DEF CtxInv, InstBound, OwnerInv
+      <3> QED BY <3>1, <3>2, <2>3, <1>3 DEF Exp, ExpK
+    <2>4. CASE Cached(g) # 0 /\ ScopeOf[f.id] # "shared"
+      <3>1. ScopeOf[f.id] = "contextual" /\ f.id \in DOMAIN BagOf(BagKey(g)) /\ f2.inst = BagOf(BagKey(g))[f.id]
+        BY <2>4, <2>1, <1>2 DEF Cached, FrameT
+      <3>2. BagKey(g) \in DOMAIN bags /\ BagOf(BagKey(g)) = bags[BagKey(g)]
+        BY <3>1 DEF BagOf
+      <3>3. bags[BagKey(g)][f.id] < nextInst /\ (bags[BagKey(g)][f.id] \in DOMAIN owner => owner[bags[BagKey(g)][f.id]] = BagKey(g))
+        BY <3>1, <3>2 DEF CtxInv, InstBound, OwnerInv
+      <3> QED BY <3>1, <3>2, <3>3, <1>3 DEF Exp, ExpK
+    <2> QED BY <2>2, <2>3, <2>4
+  <1> QED BY <1>1, <1>3, <1>4, <1>5, CtxStep
+
+LEMMA DepCtx == ASSUME Inv, CtxInv, NEW g \in G, Dep(g) PROVE CtxInv'
+  <1>1. TypeOK /\ Busy(g) /\ Top(g).phase = "deps"
+    BY DEF Inv, Dep
+  <1> DEFINE f == Top(g)
+             n == Len(stack[g])
+             ds == DepsOf[f.id]
+  <1>2. f \in FrameT /\ n \in Nat \ {0} /\ f = stack[g][n]
+    BY <1>1, BusyLen
+  <1>3. UNCHANGED <<pcs, shared, bags, nextInst, owner, returned>>
+    BY DEF Dep
+  <1>4. \E f2 \in FrameT : /\ Shape(g, f2) /\ f2.kind = f.kind /\ f2.id = f.id /\ f2.inst = f.inst
+    <2>1. CASE f.dep > Len(ds)
+      <3> DEFINE f2 == [f EXCEPT !.phase = "build"]
+      <3>1. f2 \in FrameT /\ f2.kind = f.kind /\ f2.id = f.id /\ f2.inst = f.inst
+        BY <1>2 DEF FrameT, Phases
+      <3>2. stack' = SetTop(g, f2)
+        BY <2>1 DEF Dep
+      <3> QED BY <1>1, <3>1, <3>2, SetTopShape
+    <2>2. CASE ~(f.dep > Len(ds))
+      <3> DEFINE f2 == [f EXCEPT !.dep = f.dep + 1]
+                 d == ds[f.dep]
+                 fr == Frame(d[1], d[2])
+                 mid == [stack[g] EXCEPT ![n] = f2]
+      <3>1. f.id \in Keys /\ f.dep \in Nat \ {0} /\ ds \in Seq({"svc", "par"} \X Keys)
+        BY <1>2, ConstAssump DEF FrameT
+      <3>2. f.dep \in 1..Len(ds)
+        BY <2>2, <3>1, LenProperties
+      <3>3. d \in {"svc", "par"} \X Keys /\ (d[1] = "svc" => d[2] \in Svc) /\ (d[1] = "par" => d[2] \in Par)
+        BY <3>1, <3>2, ConstAssump, ElementOfSeq
+      <3>4. fr \in FrameT /\ fr.phase = "lock" /\ fr.inst = 0
+        BY <3>3, FrameTyped DEF Frame
+      <3>5. f2 \in FrameT /\ f2.kind = f.kind /\ f2.id = f.id /\ f2.inst = f.inst
+        BY <1>1, <1>2 DEF FrameT
+      <3>6. stack' = [stack EXCEPT ![g] = Append(mid, fr)]
+        BY <2>2 DEF Dep
+      <3>7. stack[g] \in Seq(FrameT) /\ stack \in [G -> Seq(FrameT)]
+        BY <1>1 DEF TypeOK
+      <3>8. mid \in Seq(FrameT) /\ Len(mid) = n /\ \A i \in 1..n : mid[i] = IF i = n THEN f2 ELSE stack[g][i]
+        BY <3>7, <3>5, <1>2, ExceptSeq
+      <3>9. /\ Append(mid, fr) \in Seq(FrameT) /\ Len(Append(mid, fr)) = n + 1
+            /\ \A i \in 1..n : Append(mid, fr)[i] = mid[i]
+            /\ Append(mid, fr)[n + 1] = fr
+        BY <3>8, <3>4, AppendProperties
+      <3>10. /\ \A h \in G : h # g => stack'[h] = stack[h]
+             /\ Len(stack'[g]) = n + 1
+             /\ \A i \in 1..n : i # n => stack'[g][i] = stack[g][i]
+             /\ stack'[g][n] = f2 /\ stack'[g][n + 1] = fr
+        BY <3>6, <3>7, <3>8, <3>9, <1>2
+      <3>11. Shape(g, f2)
+        BY <3>10, <3>4, <1>2 DEF Shape
+      <3> QED BY <3>5, <3>11
+    <2> QED BY <2>1, <2>2
+  <1>5. PICK f2 \in FrameT : Shape(g, f2) /\ f2.kind = f.kind /\ f2.id = f.id /\ f2.inst = f.inst
+    BY <1>4
+  <1>6. f2.kind = "svc" => (f2.inst < nextInst /\ (f2.inst \in DOMAIN owner => owner[f2.inst] = Exp(f2, g)))
+    BY <1>1, <1>5, TopFacts DEF Exp, ExpK
+  <1> QED BY <1>1, <1>3, <1>5, <1>6, CtxStep
+
+LEMMA UnlockCtx == ASSUME Inv, CtxInv, NEW g \in G, Unlock(g) PROVE CtxInv'
+  <1>1. TypeOK /\ Busy(g)
+    BY DEF Inv, Unlock
+  <1> DEFINE f == Top(g)
+             n == Len(stack[g])
+             f2 == [f EXCEPT !.phase = "return"]
+  <1>2. f \in FrameT /\ n \in Nat \ {0}
+    BY <1>1, BusyLen
+  <1>3. f2 \in FrameT /\ f2.kind = f.kind /\ f2.id = f.id /\ f2.inst = f.inst /\ UNCHANGED <<pcs, shared, bags, nextInst, owner, returned>>
+    BY <1>2 DEF Unlock, FrameT, Phases
+  <1>4. f2.kind = "svc" => (f2.inst < nextInst /\ (f2.inst \in DOMAIN owner => owner[f2.inst] = Exp(f2, g)))
+    BY <1>1, <1>3, TopFacts DEF Exp, ExpK
+  <1>5. Shape(g, f2)
+    <2>1. CASE n = 1
+      <3>1. stack' = SetTop(g, f2)
+        BY <2>1 DEF Unlock
+      <3> QED BY <1>1, <1>3, <3>1, SetTopShape
+    <2>2. CASE n # 1
+      <3>1. stack' = Pop(g)
+        BY <2>2 DEF Unlock
+      <3> QED BY <1>1, <3>1, PopShape
+    <2> QED BY <2>1, <2>2
+  <1> QED BY <1>1, <1>3, <1>4, <1>5, CtxStep
+
+LEMMA ConstructCtx == ASSUME Inv, CtxInv, NEW g \in G, Construct(g) PROVE CtxInv'
+  <1>1. TypeOK /\ Busy(g)
+    BY DEF Inv, Construct
+  <1> DEFINE f == Top(g)
+             n == Len(stack[g])
+  <1>2. f \in FrameT /\ n \in Nat \ {0} /\ f = stack[g][n] /\ nextInst \in Nat \ {0}
+    BY <1>1, BusyLen DEF TypeOK
+  <1>3. CASE f.kind = "par"
+    <2> DEFINE f2 == [f EXCEPT !.phase = "store", !.inst = 1]
+    <2>1. f2 \in FrameT /\ stack' = SetTop(g, f2) /\ f2.kind = "par" /\ UNCHANGED <<pcs, shared, bags, nextInst, owner, returned>>
+      BY <1>3, <1>2 DEF Construct, FrameT, Phases
+    <2>2. Shape(g, f2)
+      BY <1>1, <2>1, SetTopShape
+    <2> QED BY <1>1, <2>1, <2>2, CtxStep
+  <1>4. CASE f.kind # "par"
+    <2> DEFINE f2 == [f EXCEPT !.phase = "store", !.inst = nextInst]
+               ow == IF ScopeOf[f.id] = "contextual" THEN BagKey(g) ELSE ""
+    <2>1. /\ f2 \in FrameT /\ stack' = SetTop(g, f2) /\ f2.kind = "svc" /\ f2.id = f.id /\ f2.inst = nextInst
+          /\ nextInst' = nextInst + 1
+          /\ owner' = [i \in (DOMAIN owner) \cup {nextInst} |-> IF i = nextInst THEN ow ELSE owner[i]]
+          /\ UNCHANGED <<pcs, shared, bags, returned>>
+      BY <1>4, <1>2 DEF Construct, FrameT, Phases
+    <2>2. Shape(g, f2) /\ n \in 1..Len(stack'[g]) /\ stack'[g][n] = f2
+      BY <1>1, <2>1, SetTopShape
+    <2>3. InstBound /\ OwnerInv
+      BY DEF CtxInv
+    <2>4. DOMAIN owner' = (DOMAIN owner) \cup {nextInst} /\ owner'[nextInst] = ow
+          /\ \A x \in DOMAIN owner : x # nextInst /\ owner'[x] = owner[x]
+      BY <2>1, <2>3, <1>2 DEF InstBound
+    <2>5. \A h \in G : BagKey(h)' = BagKey(h)
+      BY <2>1, BagKeyStable
+    (* every instance number in use is below nextInst: its owner is what it was *)
+    <2>6. \A x \in Nat : x < nextInst => ((x \in DOMAIN owner' <=> x \in DOMAIN owner) /\ (x \in DOMAIN owner => owner'[x] = owner[x]))
+      BY <2>4, <1>2
+    <2>7. \A h \in G : \A i \in 1..Len(stack'[h]) : stack'[h][i].kind = "svc" =>
+              /\ stack'[h][i].inst < nextInst + 1
+              /\ stack'[h][i].inst \in DOMAIN owner' => owner'[stack'[h][i].inst] = ExpK(stack'[h][i], BagKey(h))
+      <3> SUFFICES ASSUME NEW h \in G, NEW i \in 1..Len(stack'[h]), stack'[h][i].kind = "svc"
+                   PROVE  /\ stack'[h][i].inst < nextInst + 1
+                          /\ stack'[h][i].inst \in DOMAIN owner' => owner'[stack'[h][i].inst] = ExpK(stack'[h][i], BagKey(h))
+        OBVIOUS
+      <3>1. CASE i \in 1..Len(stack[h]) /\ ~(h = g /\ i = n) /\ stack'[h][i] = stack[h][i]
+        <4>1. stack[h][i] \in FrameT
+          BY <3>1, <1>1, ElementOfSeq DEF TypeOK
+        <4>2. stack[h][i].inst \in Nat /\ stack[h][i].inst < nextInst
+              /\ (stack[h][i].inst \in DOMAIN owner => owner[stack[h][i].inst] = Exp(stack[h][i], h))
+          BY <3>1, <4>1, <2>3 DEF InstBound, OwnerInv, FrameT
+        <4> QED BY <3>1, <4>2, <2>6, <1>2 DEF Exp
+      <3>2. CASE h = g /\ i = n /\ stack'[h][i] = f2
+        BY <3>2, <2>1, <2>4, <1>2 DEF ExpK
+      <3>3. CASE h = g /\ i = n + 1 /\ stack'[h][i].phase = "lock" /\ stack'[h][i].inst = 0
+        BY <3>3, <2>3, <2>4, <1>2 DEF InstBound
+      <3> QED BY <3>1, <3>2, <3>3, <2>2 DEF Shape
+    <2>8. InstBound'
+      <3>1. DOMAIN owner' \subseteq 1..(nextInst' - 1)
+        BY <2>1, <2>3, <2>4, <1>2 DEF InstBound
+      <3>2. \A h \in G : \A i \in 1..Len(stack'[h]) : stack'[h][i].kind = "svc" => stack'[h][i].inst < nextInst'
+        BY <2>7, <2>1
+      <3>3. /\ \A k \in DOMAIN bags' : \A x \in DOMAIN bags'[k] : bags'[k][x] < nextInst'
+            /\ \A x \in Svc : shared'[x] < nextInst'
+            /\ \A r \in returned' : r.kind = "svc" => (r.inst \in Nat /\ r.inst < nextInst')
+        <4>1. /\ \A k \in DOMAIN bags : \A x \in DOMAIN bags[k] : bags[k][x] \in Nat
+              /\ \A x \in Svc : shared[x] \in Nat
+          BY <1>1 DEF TypeOK, BagsOK
+        <4> QED BY <4>1, <2>1, <2>3, <1>2 DEF InstBound
+      <3> QED BY <3>1, <3>2, <3>3 DEF InstBound
+    <2>9. OwnerInv'
+      <3>1. \A h \in G : \A i \in 1..Len(stack'[h]) :
+               (stack'[h][i].kind = "svc" /\ stack'[h][i].inst \in DOMAIN owner') => owner'[stack'[h][i].inst] = ExpK(stack'[h][i], BagKey(h)')
+        BY <2>7, <2>5
+      <3>2. \A k \in DOMAIN bags' : \A x \in DOMAIN bags'[k] : bags'[k][x] \in DOMAIN owner' => owner'[bags'[k][x]] = k
+        <4>1. \A k \in DOMAIN bags : \A x \in DOMAIN bags[k] : bags[k][x] \in Nat /\ bags[k][x] < nextInst
+          BY <1>1, <2>3 DEF TypeOK, BagsOK, InstBound
+        <4> QED BY <4>1, <2>1, <2>3, <2>6 DEF OwnerInv
+      <3>3. \A x \in Svc : shared'[x] \in DOMAIN owner' => owner'[shared'[x]] = ""
+        <4>1. \A x \in Svc : shared[x] \in Nat /\ shared[x] < nextInst
+          BY <1>1, <2>3 DEF TypeOK, InstBound
+        <4> QED BY <4>1, <2>1, <2>3, <2>6 DEF OwnerInv
+      <3>4. ContextIsolation'
+        <4>1. \A r \in returned : r.kind = "svc" => (r.inst \in Nat /\ r.inst < nextInst)
+          BY <2>3 DEF InstBound
+        <4>2. ContextIsolation
+          BY <2>3 DEF OwnerInv
+        <4> QED BY <4>1, <4>2, <2>1, <2>6 DEF ContextIsolation
+      <3> QED BY <3>1, <3>2, <3>3, <3>4 DEF OwnerInv, Exp
+    <2> QED BY <2>8, <2>9 DEF CtxInv
+  <1> QED BY <1>3, <1>4
+
+LEMMA StoreCtx == ASSUME Inv, CtxInv, NEW g \in G, Store(g) PROVE CtxInv'
+  <1>1. TypeOK /\ Busy(g)
+    BY DEF Inv, Store
+  <1> DEFINE f == Top(g)
+             n == Len(stack[g])
+             f2 == [f EXCEPT !.phase = "unlock"]
+  <1>2. f \in FrameT /\ n \in Nat \ {0} /\ f = stack[g][n] /\ nextInst \in Nat \ {0}
+    BY <1>1, BusyLen DEF TypeOK
+  <1>3. f2 \in FrameT /\ stack' = SetTop(g, f2) /\ f2.kind = f.kind /\ f2.id = f.id /\ f2.inst = f.inst
+        /\ UNCHANGED <<pcs, nextInst, owner, returned>>
+    BY <1>2 DEF Store, FrameT, Phases
+  <1>4. Shape(g, f2)
+    BY <1>1, <1>3, SetTopShape
+  <1>5. f.kind = "svc" => (f.inst < nextInst /\ (f.inst \in DOMAIN owner => owner[f.inst] = Exp(f, g)))
+    BY <1>1, TopFacts
+  <1>6. f2.kind = "svc" => (f2.inst < nextInst /\ (f2.inst \in DOMAIN owner => owner[f2.inst] = Exp(f2, g)))
+    BY <1>3, <1>5 DEF Exp, ExpK
+  <1>7. CASE f.kind = "par" \/ (ScopeOf[f.id] # "shared" /\ ScopeOf[f.id] # "contextual")
+    <2>1. bags' = bags /\ shared' = shared
+      BY <1>7 DEF Store
+    <2> QED BY <1>1, <1>3, <1>4, <1>6, <2>1, CtxStep
+  <1>8. CASE f.kind # "par" /\ ScopeOf[f.id] = "shared"
+    <2>1. f.id \in Svc /\ f.kind = "svc" /\ shared' = [shared EXCEPT ![f.id] = f.inst] /\ bags' = bags
+      BY <1>8, <1>2 DEF Store, FrameT
+    <2>2. InstBound /\ OwnerInv /\ shared \in [Svc -> Nat]
+      BY <1>1 DEF CtxInv, TypeOK
+    <2>3. \A x \in Svc : shared'[x] = IF x = f.id THEN f.inst ELSE shared[x]
+      BY <2>1, <2>2
+    <2>4. \A x \in Svc : shared'[x] < nextInst /\ (shared'[x] \in DOMAIN owner => owner[shared'[x]] = "")
+      BY <2>3, <2>2, <2>1, <1>5, <1>8 DEF InstBound, OwnerInv, Exp, ExpK
+    <2>5. \A h \in G : \A i \in 1..Len(stack'[h]) : stack'[h][i].kind = "svc" =>
+              /\ stack'[h][i].inst < nextInst
+              /\ stack'[h][i].inst \in DOMAIN owner => owner[stack'[h][i].inst] = Exp(stack'[h][i], h)
+      <3> SUFFICES ASSUME NEW h \in G, NEW i \in 1..Len(stack'[h]), stack'[h][i].kind = "svc"
+                   PROVE  /\ stack'[h][i].inst < nextInst
+                          /\ stack'[h][i].inst \in DOMAIN owner => owner[stack'[h][i].inst] = Exp(stack'[h][i], h)
+        OBVIOUS
+      <3>1. CASE i \in 1..Len(stack[h]) /\ ~(h = g /\ i = n) /\ stack'[h][i] = stack[h][i]
+        BY <3>1, <2>2 DEF InstBound, OwnerInv
+      <3>2. CASE h = g /\ i = n /\ stack'[h][i] = f2
+        BY <3>2, <1>6
+      <3>3. CASE h = g /\ i = n + 1 /\ stack'[h][i].phase = "lock" /\ stack'[h][i].inst = 0
+        BY <3>3, <2>2, <1>2 DEF InstBound
+      <3> QED BY <3>1, <3>2, <3>3, <1>4 DEF Shape
+    <2>6. \A h \in G : BagKey(h)' = BagKey(h)
+      BY <1>3, BagKeyStable
+    <2>7. InstBound'
+      BY <2>2, <2>4, <2>5, <2>1, <1>3 DEF InstBound
+    <2>8. OwnerInv'
+      <3>1. \A h \in G : \A i \in 1..Len(stack'[h]) :
+               (stack'[h][i].kind = "svc" /\ stack'[h][i].inst \in DOMAIN owner') => owner'[stack'[h][i].inst] = ExpK(stack'[h][i], BagKey(h)')
+        BY <2>5, <2>6, <1>3 DEF Exp
+      <3>2. ContextIsolation'
+        BY <2>2, <1>3 DEF OwnerInv, ContextIsolation
+      <3> QED BY <3>1, <3>2, <2>2, <2>4, <2>1, <1>3 DEF OwnerInv, Exp
+    <2> QED BY <2>7, <2>8 DEF CtxInv
+  <1>9. CASE f.kind # "par" /\ ScopeOf[f.id] # "shared" /\ ScopeOf[f.id] = "contextual"
+    <2> DEFINE key == BagKey(g)
+    <2>1. /\ f.kind = "svc" /\ shared' = shared
+          /\ bags' = [k \in (DOMAIN bags) \cup {key} |->
+                        IF k = key THEN [x \in (DOMAIN BagOf(k)) \cup {f.id} |-> IF x = f.id THEN f.inst ELSE BagOf(k)[x]]
+                        ELSE bags[k]]
+      BY <1>9, <1>2 DEF Store, FrameT
+    <2>2. InstBound /\ OwnerInv
+      BY DEF CtxInv
+    <2>3. f.inst < nextInst /\ (f.inst \in DOMAIN owner => owner[f.inst] = key)
+      BY <2>1, <1>5, <1>9 DEF Exp, ExpK
+    <2>4. \A x \in DOMAIN BagOf(key) : BagOf(key)[x] < nextInst /\ (BagOf(key)[x] \in DOMAIN owner => owner[BagOf(key)[x]] = key)
+      BY <2>2 DEF BagOf, InstBound, OwnerInv
+    <2>5. \A k \in DOMAIN bags' : \A x \in DOMAIN bags'[k] : bags'[k][x] < nextInst /\ (bags'[k][x] \in DOMAIN owner => owner[bags'[k][x]] = k)
+      <3> SUFFICES ASSUME NEW k \in DOMAIN bags', NEW x \in DOMAIN bags'[k]
+                   PROVE  bags'[k][x] < nextInst /\ (bags'[k][x] \in DOMAIN owner => owner[bags'[k][x]] = k)
+        OBVIOUS
+      <3>1. k \in (DOMAIN bags) \cup {key}
+        BY <2>1
+      <3>2. CASE k = key
+        <4>1. bags'[k] = [y \in (DOMAIN BagOf(key)) \cup {f.id} |-> IF y = f.id THEN f.inst ELSE BagOf(key)[y]]
+          BY <3>1, <3>2, <2>1
+        <4>2. x \in (DOMAIN BagOf(key)) \cup {f.id} /\ bags'[k][x] = IF x = f.id THEN f.inst ELSE BagOf(key)[x]
+          BY <4>1
+        <4> QED BY <4>2, <2>3, <2>4, <3>2
+      <3>3. CASE k # key
+        <4>1. k \in DOMAIN bags /\ bags'[k] = bags[k]
+          BY <3>1, <3>3, <2>1
+        <4> QED BY <4>1, <2>2 DEF InstBound, OwnerInv
+      <3> QED BY <3>2, <3>3
+    <2>6. \A h \in G : \A i \in 1..Len(stack'[h]) : stack'[h][i].kind = "svc" =>
+              /\ stack'[h][i].inst < nextInst
+              /\ stack'[h][i].inst \in DOMAIN owner => owner[stack'[h][i].inst] = Exp(stack'[h][i], h)
+      <3> SUFFICES ASSUME NEW h \in G, NEW i \in 1..Len(stack'[h]), stack'[h][i].kind = "svc"
+                   PROVE  /\ stack'[h][i].inst < nextInst
+                          /\ stack'[h][i].inst \in DOMAIN owner => owner[stack'[h][i].inst] = Exp(stack'[h][i], h)
+        OBVIOUS
+      <3>1. CASE i \in 1..Len(stack[h]) /\ ~(h = g /\ i = n) /\ stack'[h][i] = stack[h][i]
+        BY <3>1, <2>2 DEF InstBound, OwnerInv
+      <3>2. CASE h = g /\ i = n /\ stack'[h][i] = f2
+        BY <3>2, <1>6
+      <3>3. CASE h = g /\ i = n + 1 /\ stack'[h][i].phase = "lock" /\ stack'[h][i].inst = 0
+        BY <3>3, <2>2, <1>2 DEF InstBound
+      <3> QED BY <3>1, <3>2, <3>3, <1>4 DEF Shape
+    <2>7. \A h \in G : BagKey(h)' = BagKey(h)
+      BY <1>3, BagKeyStable
+    <2>8. InstBound'
+      BY <2>2, <2>5, <2>6, <2>1, <1>3 DEF InstBound
+    <2>9. OwnerInv'
+      <3>1. \A h \in G : \A i \in 1..Len(stack'[h]) :
+               (stack'[h][i].kind = "svc" /\ stack'[h][i].inst \in DOMAIN owner') => owner'[stack'[h][i].inst] = ExpK(stack'[h][i], BagKey(h)')
+        BY <2>6, <2>7, <1>3 DEF Exp
+      <3>2. ContextIsolation'
+        BY <2>2, <1>3 DEF OwnerInv, ContextIsolation
+      <3> QED BY <3>1, <3>2, <2>2, <2>5, <2>1, <1>3 DEF OwnerInv, Exp
+    <2> QED BY <2>8, <2>9 DEF CtxInv
+  <1> QED BY <1>7, <1>8, <1>9
+
+LEMMA ReturnCtx == ASSUME Inv, CtxInv, NEW g \in G, Return(g) PROVE CtxInv'
+  <1>1. TypeOK /\ Busy(g) /\ Len(stack[g]) = 1
+    BY DEF Inv, Return
+  <1> DEFINE f == Top(g)
+             rec == [g |-> g, i |-> pcs[g], kind |-> f.kind, id |-> f.id, inst |-> f.inst, bag |-> BagKey(g)]
+  <1>2. f \in FrameT /\ f = stack[g][1]
+    BY <1>1, BusyLen
+  <1>3. /\ returned' = returned \cup {rec} /\ pcs' = [pcs EXCEPT ![g] = @ + 1] /\ stack' = Pop(g)
+        /\ UNCHANGED <<shared, bags, nextInst, owner>>
+    BY DEF Return
+  <1>4. /\ \A h \in G : h # g => (stack'[h] = stack[h] /\ pcs'[h] = pcs[h])
+        /\ Len(stack'[g]) = 0
+    <2>1. pcs \in [G -> Nat \ {0}]
+      BY <1>1 DEF TypeOK
+    <2> QED BY <1>1, <1>3, <2>1, PopProps
+  <1>5. InstBound /\ OwnerInv
+    BY DEF CtxInv
+  <1>6. f.kind = "svc" => (f.inst \in Nat /\ f.inst < nextInst /\ (f.inst \in DOMAIN owner => owner[f.inst] = Exp(f, g)))
+    BY <1>1, <1>2, TopFacts DEF FrameT
+  <1>7. \A h \in G : h # g => BagKey(h)' = BagKey(h)
+    BY <1>4, BagKeyStable
+  <1>8. \A h \in G : \A i \in 1..Len(stack'[h]) : h # g /\ i \in 1..Len(stack[h]) /\ stack'[h][i] = stack[h][i]
+    BY <1>4
+  <1>9. InstBound'
+    <2>1. \A r \in returned' : r.kind = "svc" => (r.inst \in Nat /\ r.inst < nextInst')
+      BY <1>3, <1>5, <1>6 DEF InstBound
+    <2>2. \A h \in G : \A i \in 1..Len(stack'[h]) : stack'[h][i].kind = "svc" => stack'[h][i].inst < nextInst'
+      BY <1>8, <1>3, <1>5 DEF InstBound
+    <2> QED BY <2>1, <2>2, <1>3, <1>5 DEF InstBound
+  <1>10. OwnerInv'
+    <2>1. \A h \in G : \A i \in 1..Len(stack'[h]) :
+             (stack'[h][i].kind = "svc" /\ stack'[h][i].inst \in DOMAIN owner') => owner'[stack'[h][i].inst] = ExpK(stack'[h][i], BagKey(h)')
+      BY <1>8, <1>7, <1>3, <1>5 DEF OwnerInv, Exp
+    <2>2. ContextIsolation'
+      <3> SUFFICES ASSUME NEW r \in returned', r.kind = "svc", r.inst \in DOMAIN owner', owner'[r.inst] # ""
+                   PROVE  owner'[r.inst] = r.bag
+        BY DEF ContextIsolation
+      <3>1. CASE r \in returned
+        BY <3>1, <1>3, <1>5 DEF OwnerInv, ContextIsolation
+      <3>2. CASE r = rec
+        <4>1. r.kind = f.kind /\ r.inst = f.inst /\ r.bag = BagKey(g)
+          BY <3>2
+        <4>2. owner[f.inst] = Exp(f, g) /\ owner[f.inst] # ""
+          BY <4>1, <1>3, <1>6
+        <4> QED BY <4>1, <4>2, <1>3 DEF Exp, ExpK
+      <3> QED BY <3>1, <3>2, <1>3
+    <2> QED BY <2>1, <2>2, <1>3, <1>5 DEF OwnerInv, Exp
+  <1> QED BY <1>9, <1>10 DEF CtxInv
+
+THEOREM CtxInductive == Inv /\ CtxInv /\ [CNext]_cvars => CtxInv'
+  <1> SUFFICES ASSUME Inv, CtxInv, [CNext]_cvars PROVE CtxInv'
+    OBVIOUS
+  <1>1. CASE UNCHANGED cvars
+    BY <1>1 DEF CtxInv, InstBound, OwnerInv, ContextIsolation, Exp, ExpK, BagKey, CurOp, cvars
+  <1>2. ASSUME NEW g \in G, Begin(g) \/ Lock(g) \/ Check(g) \/ Dep(g) \/ Construct(g) \/ Store(g) \/ Unlock(g) \/ Return(g) PROVE CtxInv'
+    BY <1>2, BeginCtx, LockCtx, CheckCtx, DepCtx, ConstructCtx, StoreCtx, UnlockCtx, ReturnCtx
+  <1> QED BY <1>1, <1>2 DEF CNext
+
 THEOREM ConstructedOnceAlways == (CInit /\ [][CNext]_cvars) => []ConstructedOnce
   <1>1. CInit => Inv /\ OnceInv
     BY InitInv, InitOnce
@@ -1543,5 +2041,13 @@ THEOREM EvaluatedOnceAlways == (CInit /\ [][CNext]_cvars) => []EvaluatedOnce
     BY InvInductive, EvalInductive
   <1>3. (Inv /\ EvalInv) => EvaluatedOnce
     BY EvalImplies
+  <1> QED BY <1>1, <1>2, <1>3, PTL
+THEOREM ContextIsolationAlways == (CInit /\ [][CNext]_cvars) => []ContextIsolation
+  <1>1. CInit => Inv /\ CtxInv
+    BY InitInv, InitCtx
+  <1>2. (Inv /\ CtxInv) /\ [CNext]_cvars => (Inv /\ CtxInv)'
+    BY InvInductive, CtxInductive
+  <1>3. (Inv /\ CtxInv) => ContextIsolation
+    BY CtxImplies
   <1> QED BY <1>1, <1>2, <1>3, PTL
 =============================================================================
